@@ -36,6 +36,7 @@
      strip_trimmed, trimmed_strip, strip_idem, strip_all_space
      slice_rstrip       : strip (slice a b (rstrip l)) = strip (slice a b l)
      rstrip_app_space   : all_space w -> rstrip (s ++ w) = rstrip s
+     rstrip_idem, strip_rstrip : rstrip (rstrip s) = rstrip s;  strip (rstrip s) = strip s
      rstrip_decomp      : exists w, all_space w /\ s = rstrip s ++ w
      split_join         : Forall is_token l -> split_ws (join " " l) = l
      split_ws_lead      : all_space w -> split_ws (w ++ s) = split_ws s
@@ -45,7 +46,8 @@
      len_take, len_drop, len_slice, len_ljust, len_rjust, len_place, len_app, len_spaces, len_cat
      take_app, drop_app, take_drop, take_all, drop_all, take_app_len, drop_app_len
      slice_place_same   : a + len c <= len s -> slice a (a + len c) (place a c s) = c
-     slice_place_before : y <= a -> slice x y (place a c s) = slice x y s
+     slice_place_before : y <= a -> a <= len s -> slice x y (place a c s) = slice x y s
+     slice_app_left     : b <= len x -> slice a b (x ++ w) = slice a b x
      slice_place_after  : a + len c <= x -> a + len c <= len s -> slice x y (place a c s) = slice x y s
    ================================================================================================== *)
 From Coq Require Import Ascii String List Bool Arith ZArith Lia.
@@ -337,10 +339,9 @@ Proof.
 Qed.
 Lemma rtrimmed_lstrip_by p s : rtrimmed p s = true -> rtrimmed p (lstrip_by p s) = true.
 Proof.
-  induction s as [|c r IH]; simpl; auto.
-  destruct (p c) eqn:E.
-  - destruct r; simpl; auto. rewrite E. discriminate.
-  - auto.
+  induction s as [|c r IH]; auto. intros H.
+  cbn [lstrip_by]. destruct (p c) eqn:E; auto.
+  destruct r as [|d r']; auto.
 Qed.
 
 Lemma strip_by_pad p a s b :
@@ -396,6 +397,11 @@ Proof. apply rstrip_by_decomp. Qed.
 Lemma strip_app_space s w : all_space w = true -> strip (s ++ w) = strip s.
 Proof. intros. unfold strip, strip_by. rewrite rstrip_by_app_all; auto. Qed.
 
+Lemma rstrip_idem s : rstrip (rstrip s) = rstrip s.
+Proof. apply rstrip_by_rtrimmed, rtrimmed_rstrip_by. Qed.
+Lemma strip_rstrip s : strip (rstrip s) = strip s.
+Proof. unfold strip, strip_by. fold rstrip. rewrite rstrip_idem. reflexivity. Qed.
+
 (* slicing a right-stripped line, then stripping = stripping the slice of the unstripped line
    (ChainParser.read_data passes line.rstrip() to parse_line) *)
 Lemma slice_rstrip a b l : strip (slice a b (rstrip l)) = strip (slice a b l).
@@ -448,14 +454,19 @@ Proof.
 Qed.
 Lemma split_ws_all_space w : all_space w = true -> split_ws w = [].
 Proof. intros H. generalize (split_ws_lead w "" H). rewrite app_nil_r. auto. Qed.
-Lemma split_ws_app_space s w : all_space w = true -> split_ws (s ++ w) = split_ws s.
+Lemma split_go_all_space w : all_space w = true -> split_go w = ("", []).
+Proof.
+  induction w as [|c w IH]; simpl; auto.
+  intros H; apply andb_true_iff in H as [H1 H2]. rewrite IH, H1 by auto. reflexivity.
+Qed.
+Lemma split_go_app_space s w : all_space w = true -> split_go (s ++ w) = split_go s.
 Proof.
   intros Hw. induction s as [|c s IH]; simpl.
-  - rewrite split_ws_all_space; auto.
-  - unfold split_ws in *. simpl. destruct (split_go (s ++ w)) as [t ts], (split_go s) as [t' ts'].
-    destruct (is_space c); simpl; auto.
-    destruct t, t'; simpl in *; try congruence.
+  - apply split_go_all_space; auto.
+  - rewrite IH. reflexivity.
 Qed.
+Lemma split_ws_app_space s w : all_space w = true -> split_ws (s ++ w) = split_ws s.
+Proof. intros Hw. unfold split_ws. rewrite split_go_app_space; auto. Qed.
 Lemma split_ws_rstrip s : split_ws (rstrip s) = split_ws s.
 Proof.
   destruct (rstrip_decomp s) as [w [Hw E]]. rewrite E at 2. symmetry. apply split_ws_app_space; auto.
@@ -493,25 +504,17 @@ Proof.
   assert (E : len (take a s) = a) by (rewrite len_take; lia).
   rewrite <- E at 1 2. apply slice_app_mid.
 Qed.
-Lemma slice_place_before x y a c s : y <= a -> slice x y (place a c s) = slice x y s.
+Lemma slice_app_left a b x w : b <= len x -> slice a b (x ++ w) = slice a b x.
 Proof.
-  intros H. unfold place, slice.
-  destruct (Nat.le_gt_cases (len s) a) as [Hl|Hl].
-  - rewrite (take_all a s) by lia. rewrite (drop_all (a + len c) s) by lia.
-    rewrite drop_app, take_app.
-    replace (take (y - x - len (drop x s)) _) with "".
-    + rewrite app_nil_r. reflexivity.
-    + destruct (Nat.le_gt_cases (len s) x).
-      * rewrite (drop_all x s) by lia. simpl.
-        destruct (Nat.le_gt_cases y x).
-        -- replace (y - x - 0) with 0 by lia. rewrite take_0; auto.
-        -- lia.
-      * rewrite len_drop. replace (y - x - (len s - x)) with 0 by lia. rewrite take_0; auto.
-  - rewrite <- (take_drop a s) at 3.
-    rewrite !drop_app, !take_app. f_equal.
-    assert (E : len (take a s) = a) by (rewrite len_take; lia).
-    rewrite len_drop, E.
-    replace (y - x - (a - x)) with 0 by lia. rewrite !take_0. reflexivity.
+  intros H. rewrite slice_app, len_drop. replace (b - a - (len x - a)) with 0 by lia.
+  rewrite take_0. apply app_nil_r.
+Qed.
+Lemma slice_place_before x y a c s : y <= a -> a <= len s -> slice x y (place a c s) = slice x y s.
+Proof.
+  intros H Ha. unfold place.
+  assert (E : len (take a s) = a) by (rewrite len_take; lia).
+  rewrite slice_app_left by lia.
+  rewrite <- (take_drop a s) at 2. rewrite slice_app_left by lia. reflexivity.
 Qed.
 Lemma slice_place_after x y a c s :
   a + len c <= x -> a + len c <= len s -> slice x y (place a c s) = slice x y s.
